@@ -40,11 +40,11 @@ TEXT = {
             "Trusts the module-resolution rules written in the generator (rustc's) and the 30-line gitignore matcher for the generated pattern vocabulary; gray zones of the property's wording go to the don't-care set or are not generated.",
             "deterministic simulation: model-based exploration of the real binary's file-system history (incl. injected errno, hash seeds)", "s4 C13"),
     "C15": ("exploration",
-            "Seeded exploration over worlds of 1-5 inputs (sibling and nested directories with their own configs and ignore lists, unparsable and already-formatted inputs): every permutation (n<=3; 6 sampled otherwise) as one real invocation, the n single-input invocations, 3 extra hash seeds, 2 other working directories / path spellings, a perturbed environment and stdin delivery; oracles: per-file result of every run equals the single-input run's, exit status is the maximum, stderr report lines are the multiset union, mutating-operation sequence independent of the hash seed.",
+            "Seeded exploration over worlds of 1-5 inputs (sibling and nested directories with their own configs and ignore lists, unparsable and already-formatted inputs): every permutation (n<=3; 6 sampled otherwise) as one real invocation, the n single-input invocations, 3 extra hash seeds, 2 other working directories / path spellings, a perturbed environment and stdin delivery; oracles: per-file result of every run equals the single-input run's, exit status is the maximum, stderr report lines are the multiset union, mutating-operation sequence independent of the hash seed; the same orders replayed in ONE library-API session (Session::override_config + Session::format per input) give the same per-file results and status; an injected I/O error while one input is written leaves the results of the other inputs unchanged.",
             "Trusts per-mode extraction of per-file results by file name; config-level `Warning:` lines are excluded from report comparison.",
             "deterministic simulation: history/permutation and hash-seed search over the real binary with differential oracle", "s4 C15"),
     "C14": ("exploration",
-            "Seeded exploration of directory layouts of config files (0-3 levels + sibling, both file names, a directory named like a config, $HOME / $XDG_CONFIG_HOME / HOME unset), 60 options incl. deprecated aliases, CLI override subsets and input orders. Differential oracles on the real binary: each probe's bytes and --print-config dump in the discovered, multi-file invocation equal those of a fresh single-file run handed the reference model's effective options explicitly (in a file, and all on the command line); dump fixpoint; widths vs max_width; unreadable candidate is an error (injected errno); three hash seeds per world.",
+            "Seeded exploration of directory layouts of config files (0-3 levels + sibling, both file names, a directory named like a config, $HOME / $XDG_CONFIG_HOME / HOME unset), 60 options incl. deprecated aliases, CLI override subsets and input orders. Differential oracles on the real binary: each probe's bytes and --print-config dump in the discovered, multi-file invocation equal those of a fresh single-file run handed the reference model's effective options explicitly (in a file, and all on the command line); dump fixpoint; widths vs max_width; unreadable candidate is an error (injected errno on stat/open); three hash seeds per world; the same effective options applied through the library API (Config::override_value in a session driver) give the same bytes.",
             "Trusts the 40-line reference model of discovery/precedence (documented rules), that a rejected reference run means 'skip', and the sealing of the world by the interposer (config probes outside the world answer ENOENT).",
             "deterministic simulation: model-based differential testing of the real binary over simulated fs/env/hash seed", "s4 C14"),
     "C06": ("exploration",
